@@ -658,7 +658,7 @@ func TestReloadConvergence(t *testing.T) {
 		return
 	}
 	fx.Prelease(2)
-	fx.Run(t, fx.Spec[Case]{Prop: "C19", Name: "reload_convergence", Quick: 240, Thorough: 4000, Gen: gen, Run: run, Class: classify, Retry: true, ShrinkTime: "40s"})
+	fx.Run(t, fx.Spec[Case]{Prop: "C19", Name: "reload_convergence", Journal: true, Quick: 240, Thorough: 4000, Gen: gen, Run: run, Class: classify, Retry: true, ShrinkTime: "40s"})
 }
 
 // Deterministic probe for the recorded finding "stale-newproxyresp": a registration is outstanding
